@@ -57,6 +57,21 @@ pub fn verif_root() -> PathBuf {
         .unwrap_or_else(|| PathBuf::from("/verif"))
 }
 
+/// Directory for per-run scratch files (NDL texts handed to `core_parser` by path): RAM-backed
+/// /dev/shm when it exists (the checks write millions of tiny files; on the ext4 root each
+/// rewrite costs a journal flush), otherwise `$VERIF_ROOT/target/tmp`. Nothing in it outlives
+/// a run.
+pub fn scratch_dir() -> PathBuf {
+    let shm = PathBuf::from("/dev/shm");
+    let d = if shm.is_dir() {
+        shm.join(format!("verif-scratch-{}", std::process::id()))
+    } else {
+        verif_root().join("target").join("tmp")
+    };
+    let _ = std::fs::create_dir_all(&d);
+    d
+}
+
 struct Known {
     signature: String,
     what: String,
